@@ -1426,6 +1426,9 @@ def install(prog):
 
     @B('args', 'std::env::args', 'vars', 'std::env::vars', 'std::env::args_os', 'std::env::vars_os')
     def b_env_iter(ctx, a, callee):
+        # the process environment is what the harness says it is (ctx.process_env: list of (name, value)); empty by default
+        if 'vars' in callee:
+            return it_seq([tup(n, v) for n, v in getattr(ctx, 'process_env', ())])
         return it_seq([])
 
     @B('OsStr::len', 'OsString::len', 'OsStr::is_empty')
